@@ -3,7 +3,7 @@ import hashlib
 from harness.common import Case, hx, unhx, Fields, run_driver, MachineryFault
 from harness import gen as G
 
-KINDS = 'ms'
+KINDS = 'gms'
 RULE = ('RIPEMD-160 on every length 0..300 and random lengths (thorough: to 100000) incl. the padding boundaries 55/56/63/64/119/120; both '
         'tagged_hash copies on random tags/data; BIP340 sign on secrets across [1,n-1] incl. 1, n-1 and the refused 0, n, with random messages and '
         'aux; verification of valid and mutated signatures (bit flips, r >= p, s >= n, negated R, other message/key) and off-curve keys, with '
